@@ -45,7 +45,8 @@ P["C01"] = dict(
 P["C05"] = dict(
     claimed=True,
     technique="static analysis: exact rational identities between the Krueger, rectifying and conformal series tables",
-    decides=["R-NO-INPUT-CLAMP: no clamp / min / max is applied to an input coordinate element in the per-tuple loops of the plane projections",
+    decides=["T-OMERC-UC: omerc computes the centre's u coordinate with the one-argument arctangent of (D^2-1)^1/2 / cos(alpha), as published (no atan2 with the cosine of the azimuth as second argument)",
+             "R-NO-INPUT-CLAMP: no clamp / min / max is applied to an input coordinate element in the per-tuple loops of the plane projections",
              "R-K0-LINEAR (stored constants): every constant a projection's constructor derives from k_0 and stores is proportional to k_0 (or a false origin plus such a term)",
              "R-BRANCH-AGREE: the alternative formulas of `ts` (and of any ancillary function taking a (sin, cos) pair) are equal as rational functions modulo sin^2 + cos^2 = 1",
              "R-PARALLELS-SYMMETRIC: every branch condition of lcc::new on an arithmetic combination of both standard parallels is symmetric in them, and lat_0 defaults to lat_1 on the strength of |lat_1 - lat_2| < eps",
